@@ -307,6 +307,11 @@ func (m *Morass) Finalise() error {
 
 // Clear resets the Morass to an empty state.
 func (m *Morass) Clear() error {
+	// A failed Push or Finalise may have returned while background
+	// writers were still running; let them finish with their files
+	// before the files are closed and the state is reset.
+	m.writers.Wait()
+
 	var err error
 	for _, f := range m.files {
 		err = f.file.Close()
